@@ -262,6 +262,102 @@ impl std::future::Future for YieldOnce {
     }
 }
 
+/// Poll `fut` up to `k` times, then drop it wherever it is suspended. Returns whether it finished.
+pub fn poll_then_drop<F: std::future::Future>(fut: F, k: u32) -> bool {
+    let mut cx = std::task::Context::from_waker(std::task::Waker::noop());
+    let mut fut = std::pin::pin!(fut);
+    for _ in 0..k {
+        if fut.as_mut().poll(&mut cx).is_ready() {
+            return true;
+        }
+    }
+    false
+}
+
+/// A span site whose future was polled `k` times and then dropped (cancelled). `e` describes the
+/// span event a DROP must produce (default completion: the attribute's level, no err). With
+/// `nested` the body awaits `inner(9)` (a plain `#[span]` async fn with one yield) between its two
+/// yields: 1 poll = outer suspended at its first yield, 2 = inside the inner span (both frames are
+/// dropped at once), 3 = inner finished, outer at its second yield.
+pub fn check_span_cancelled(r: &mut Report, seed: u64, site: &Site, evts: &[Captured], e: &SpanExpect, k: u32, nested: bool, finished: bool, ambient_after: usize) {
+    r.observe("span-invocations", 1);
+    r.observe("span-events", evts.len() as u64);
+    r.observe(&format!("cancelled-after-{}-polls", k), 1);
+    let mut bad: Vec<(String, String)> = Vec::new();
+    if finished {
+        bad.push(("generator:finished-or-panicked".into(), "the future finished (or panicked) before it could be dropped".into()));
+    }
+    let inner: Vec<&Captured> = evts.iter().filter(|c| c.get("span_name") == Some("inner {z}")).collect();
+    let outer: Vec<&Captured> = evts.iter().filter(|c| c.get("span_name") != Some("inner {z}")).collect();
+    let want_outer = if e.enabled && k >= 1 { 1 } else { 0 };
+    let want_inner = if nested && k >= 2 { 1 } else { 0 };
+    if outer.len() != want_outer || inner.len() != want_inner {
+        bad.push((
+            "completion-count".into(),
+            format!("{} span event(s) of the cancelled fn and {} of the nested one, expected {} and {}", outer.len(), inner.len(), want_outer, want_inner),
+        ));
+    }
+    if ambient_after != 0 {
+        bad.push(("ambient-left-behind".into(), format!("{} ambient properties visible after the future was dropped", ambient_after)));
+    }
+    if let (1, Some(evt)) = (want_outer, outer.first()) {
+        r.observe("cancelled-span-events-judged", 1);
+        if evt.msg != e.msg {
+            bad.push(("message".into(), format!("span message {:?}, expected {:?}", evt.msg, e.msg)));
+        }
+        if evt.get("evt_kind") != Some("span") {
+            bad.push(("kind".into(), format!("evt_kind {:?}", evt.get("evt_kind"))));
+        }
+        match evt.extent {
+            Some((Some(s), t)) if s <= t => {}
+            other => bad.push(("extent".into(), format!("extent {:?} is not a forward range (start .. drop)", other))),
+        }
+        if evt.get("lvl") != e.lvl {
+            bad.push(("level".into(), format!("lvl {:?}, a dropped span gets {:?} (no panic level)", evt.get("lvl"), e.lvl)));
+        }
+        if evt.get("err").is_some() {
+            bad.push(("error".into(), format!("err {:?} on a span that was dropped, not panicked", evt.get("err"))));
+        }
+        for (key, v) in e.props {
+            if evt.get(key) != Some(*v) {
+                bad.push(("props-missing".into(), format!("property {:?} is {:?}, expected {:?}", key, evt.get(key), v)));
+            }
+        }
+        for key in ["trace_id", "span_id"] {
+            if evt.get(key).is_none() {
+                bad.push(("ids-missing".into(), format!("the cancelled span carries no {}", key)));
+            }
+        }
+    }
+    if let (1, Some(i)) = (want_inner, inner.first()) {
+        r.observe("cancelled-span-events-judged", 1);
+        if i.get("z") != Some("9") || i.get("trace_id").is_none() || i.get("span_id").is_none() {
+            bad.push(("nested:props-or-ids-missing".into(), format!("nested span: z={:?} trace_id={:?} span_id={:?}", i.get("z"), i.get("trace_id"), i.get("span_id"))));
+        }
+        if let Some(o) = outer.first() {
+            if want_outer == 1 && (i.get("span_parent") != o.get("span_id") || i.get("trace_id") != o.get("trace_id")) {
+                bad.push((
+                    "nested:wrong-parent".into(),
+                    format!(
+                        "nested span trace/parent = {:?}/{:?}, the span it runs in has trace/span = {:?}/{:?}",
+                        i.get("trace_id"),
+                        i.get("span_parent"),
+                        o.get("trace_id"),
+                        o.get("span_id")
+                    ),
+                ));
+            }
+        }
+    }
+    for (sig, what) in bad {
+        r.violation(
+            &format!("C05:gen:cancelled-after-k-polls:{}:{}", sig, site.form),
+            &format!("site {} ({} {}), {} poll(s) then dropped: {}", site.id, site.form, site.mix, k, what),
+            site.case(seed),
+        );
+    }
+}
+
 pub struct SpanExpect {
     pub enabled: bool,
     pub msg: &'static str,
